@@ -575,7 +575,10 @@ func binRules(p *Prog, r *Report) {
 				if f == nil || f.Pkg == nil || f.Pkg.Pkg.Path() != "connectrpc.com/connect" {
 					return
 				}
-				if !guardedBy(i2, func(a Atom) bool { m, v := boolTestOn(a, func(x ssa.Value) bool { return canon(x) == ssa.Value(c) }); return m && v }) {
+				if !guardedBy(i2, func(a Atom) bool {
+					m, v := boolTestOn(a, func(x ssa.Value) bool { return canon(x) == ssa.Value(c) })
+					return m && v
+				}) {
 					return
 				}
 				if f.Name() == "EncodeBinaryHeader" {
